@@ -26,6 +26,7 @@ type Clause struct {
 type LoopSpec struct {
 	Invariants []*Clause
 	Decreases  *Clause
+	Exits      []*Clause // checked on every edge leaving the loop
 }
 
 type Contract struct {
@@ -234,6 +235,15 @@ func (cs *ContractSet) parseFile(path, pkgPath string) error {
 					return err
 				}
 				ls.Decreases = c
+			case "exit":
+				c, err := mk(r3)
+				if err != nil {
+					return err
+				}
+				if c.Label == "" {
+					c.Label = strconv.Itoa(len(ls.Exits) + 1)
+				}
+				ls.Exits = append(ls.Exits, c)
 			case "unroll":
 				k, err := strconv.Atoi(strings.TrimSpace(r3))
 				if err != nil {
